@@ -290,7 +290,8 @@ fn check(prop: &str, tier_arg: &str) -> i32 {
         "seed": base_seed,
         "level": meta.level,
         "coverage": {
-            "evaluations": total.runs,
+            "evaluations": meta.eval_counter.and_then(|c| total.stats.get(c).copied()).unwrap_or(total.runs),
+            "simulated_runs": total.runs,
             "distinct_nontrivial": cases.len(),
             "rule": meta.rule,
             "samples": samples,
@@ -399,8 +400,12 @@ fn selftest(args: &[String]) -> i32 {
     let base = env_u64("VERIF_SEED", 1);
     let mut bad = 0;
     let mut lines = Vec::new();
+    let mut seen = BTreeSet::new();
     for prop in checks::ALL_PROPS {
         for job in checks::jobs_for(prop) {
+            if !seen.insert(job.name.clone()) {
+                continue;
+            }
             let mut x = 0u64;
             for idx in 0..n {
                 let seed = job_seed(base, &job.name, idx);
